@@ -286,3 +286,37 @@ func runWire(k *hcase, in string) (res result) {
 	}
 	return
 }
+
+// probeNoHls: an HLS request for a stream that has no HLS output (an H.265 stream) must be
+// answered like any other missing resource; a URI of a playlist "resolves to a segment" or to a
+// proper not-found, never to a crashed handler.
+func probeNoHls(c *Ctx) {
+	wireMu.Lock()
+	defer wireMu.Unlock()
+	xlog.ReplaceGlobal(xlog.New(xlog.NewNopCore()))
+	s := media.NewStream("/wire/nohls", "v=0\r\no=- 0 0 IN IP4 127.0.0.1\r\ns=x\r\nc=IN IP4 0.0.0.0\r\nt=0 0\r\nm=video 0 RTP/AVP 96\r\na=rtpmap:96 H265/90000\r\na=control:streamid=0\r\n")
+	media.Regist(s)
+	defer func() { media.Unregist(s); s.Close() }()
+	for _, req := range []string{"m3u8", "ts"} {
+		code, pan := 0, ""
+		func() {
+			defer func() {
+				if r := recover(); r != nil {
+					pan = fmt.Sprint(r)
+				}
+			}()
+			if req == "m3u8" {
+				code = httpM3u8("/wire/nohls", "").status
+			} else {
+				code = httpTS("/wire/nohls", 1).status
+			}
+		}()
+		c.Eval("nohls-"+req, true)
+		c.Count("probe-stream-without-hls")
+		if pan != "" || code != 404 {
+			c.Find(Finding{Kind: "oracle", Class: "hls-request-on-stream-without-hls", Case: "probe nohls " + req,
+				Impl: fmt.Sprintf("status=%d panic=%q", code, pan), Spec: "404 not found",
+				Detail: "HLS request for a registered stream that has no HLS output (H.265)"})
+		}
+	}
+}
